@@ -5,7 +5,7 @@
 import GraphrsModel.Obs
 import GraphrsModel.Proto
 import GraphrsModel.Model.Dijkstra
-import GraphrsModel.Spec.Paths
+import GraphrsModel.Spec.PathCheck
 namespace Graphrs
 
 def pPath (p : List Nat) : String := joinWith "-" (p.map toString)
